@@ -10,20 +10,20 @@ namespace HV.Bridge
 
 /-- `READ_FUNCTION_DICT`: keys, reader functions and — the point — their order -/
 theorem read_dispatch_table :
-    Generated.readDispatch = none ∨ Generated.readDispatch = some HV.dispatchTable := by decide
+    Generated.readDispatch = none ∨ Generated.readDispatch = some HV.Rd.dispatchTable := by decide
 
 /-- the reader whose exception `read_single` re-raises is the last one tried -/
 theorem read_reraise :
-    Generated.readReraise = none ∨ Generated.readReraise = some HV.reraiseName := by decide
+    Generated.readReraise = none ∨ Generated.readReraise = some HV.Rd.reraiseName := by decide
 
-theorem reraise_is_last : HV.dispatchOrder.getLast? = some HV.reraiseName := by decide
+theorem reraise_is_last : HV.Rd.dispatchOrder.getLast? = some HV.Rd.reraiseName := by decide
 
 /-- constants of the NORTH_ROT rule, the PEER azimuth folding and the modulo-360 normalisation -/
 theorem reader_consts :
-    Generated.readerConsts = none ∨ Generated.readerConsts = some HV.readerConsts.toList := by decide
+    Generated.readerConsts = none ∨ Generated.readerConsts = some HV.Rd.readerConsts.toList := by decide
 
 /-- source strings (and flags) of the SAF / MiniShark / PEER regular expressions -/
 theorem reader_regex :
-    Generated.readerRegex = none ∨ Generated.readerRegex = some HV.regexSources := by decide
+    Generated.readerRegex = none ∨ Generated.readerRegex = some HV.Rd.regexSources := by decide
 
 end HV.Bridge
